@@ -130,16 +130,35 @@ def pVer : P Ver := do
   let n ← nat
   pure (match n with | 0 => .v10 | 1 => .v11 | 2 => .v20 | _ => .v30)
 
-def kfReq (h : ReqHead) : List String :=
-  (if decide (KF.C05.methodGate h) then ["KF.C05.methodGate"] else []) ++
-  (if decide (KF.C05.headerNameCaseReq h) then ["KF.C05.headerNameCase"] else []) ++
-  (if decide (KF.C05.langWeightOws h) then ["KF.C05.langWeightOws"] else []) ++
-  (if decide (KF.C05.langTagCase h) then ["KF.C05.langTagCase"] else []) ++
-  (if decide (KF.C05.unicodeSpaceReq h) then ["KF.C05.unicodeSpace"] else [])
+/-! Input features behind the repaired findings (no longer exclusion classes — every well-formed
+case is compared with the specification); they only label the case so that coverage of these
+inputs stays a gate: g = method outside the old gate list, c = listed header name in another letter
+case, w = weight with OWS / "Q=", t = upper-case primary tag, u = value edged by Unicode white space. -/
 
-def kfRes (h : ResHead) : List String :=
-  (if decide (KF.C05.headerNameCaseRes h) then ["KF.C05.headerNameCase"] else []) ++
-  (if decide (KF.C05.unicodeSpaceRes h) then ["KF.C05.unicodeSpace"] else [])
+def exactIn (l : List String) (n : Bytes) : Bool := l.any (fun s => ascii s == n)
+
+def nameCaseFeat (isReq : Bool) (n : Bytes) : Bool :=
+  (ciMem n (p0fOptional isReq) && !exactIn (p0fOptional isReq) n) ||
+  (ciMem n (p0fSkipValue isReq) && !exactIn (p0fSkipValue isReq) n)
+
+def weightFeat (i : LangItem) : Bool :=
+  match i.weight with
+  | none => false
+  | some w => !w.ows.isEmpty || !w.trail.isEmpty || w.upperQ
+
+def tagFeat (i : LangItem) : Bool := (splitByte 45 i.tag).headD [] != primaryLower i
+
+def uspaceFeat (f : Field) : Bool := startsWithUSpace f.value || endsWithUSpace f.value || containsUSpace f.value
+
+def featFields (isReq : Bool) (fs : List Field) : String :=
+  (if fs.any (fun f => nameCaseFeat isReq f.name) then "c" else "") ++
+  (if fs.any uspaceFeat then "u" else "")
+
+def featReq (h : ReqHead) : String :=
+  (if h.method == ascii "REPORT" || h.method == ascii "MKCALENDAR" then "g" else "") ++
+  featFields true h.fields ++
+  (if (firstField h.fields "accept-language").isSome && h.langs.any weightFeat then "w" else "") ++
+  (if (firstField h.fields "accept-language").isSome && h.langs.any tagFeat then "t" else "")
 
 def bodyTag (body : Bytes) : String :=
   if body.isEmpty then "b0" else if utf8Valid body then "btxt" else "bbin"
@@ -154,12 +173,13 @@ def headReq (impl : String) : P Verdict := do
   let r := processorsParseRequest noH2 data
   let wf := decide (WFReq h)
   let spec := if wf then some (showObsReq (some (reportReq h))) else none
-  let kf := if wf then kfReq h else []
+  let kf : List String := []
+  let feat := if wf then featReq h else ""
   let o := match r with | some (some _) => "some" | some none => "none" | none => "outside"
   let n := fs.length
   let sz := if n == 0 then "h0" else if n < 10 then "h1-9" else if n < 100 then "h10-99" else if n == 100 then "h100" else "h>100"
   pure (verdictOf impl (showModelReq r) spec kf
-    s!"hreq:{if wf then "wf" else "nwf"}:{o}:{sz}:{bodyTag body}{if kf.isEmpty then "" else ":kf"}")
+    s!"hreq:{if wf then "wf" else "nwf"}:{o}:{sz}:{bodyTag body}{if feat.isEmpty then "" else ":x" ++ feat}")
 
 /-- `C05.hres <ver> <status> <reason> <fields> <body>` -/
 def headRes (impl : String) : P Verdict := do
@@ -170,11 +190,12 @@ def headRes (impl : String) : P Verdict := do
   let r := processorsParseResponse noH2 data
   let wf := decide (WFRes h)
   let spec := if wf then some (showObsRes (some (reportRes h))) else none
-  let kf := if wf then kfRes h else []
+  let kf : List String := []
+  let feat := if wf then featFields false h.fields else ""
   let n := fs.length
   let sz := if n == 0 then "h0" else if n < 10 then "h1-9" else if n < 100 then "h10-99" else if n == 100 then "h100" else "h>100"
   pure (verdictOf impl (showObsRes r) spec kf
-    s!"hres:{if wf then "wf" else "nwf"}:{if r.isSome then "some" else "none"}:{sz}:{bodyTag body}{if kf.isEmpty then "" else ":kf"}")
+    s!"hres:{if wf then "wf" else "nwf"}:{if r.isSome then "some" else "none"}:{sz}:{bodyTag body}{if feat.isEmpty then "" else ":x" ++ feat}")
 
 def showLang : Option (Option Bytes) → String
   | none => "OUTSIDE-MODEL"
@@ -194,13 +215,11 @@ def langList (impl : String) : P Verdict := do
   let r := highestQualityLanguage al
   let wf := !ls.isEmpty && ls.all (fun i => decide (LangItemWF i))
   let spec := if wf then some (optB (preferredLang ls)) else none
-  let kf := if wf then
-      (if ls.any KF.C05.weightOws then ["KF.C05.langWeightOws"] else []) ++
-      (if ls.any (fun i => (splitByte 45 i.tag).headD [] != primaryLower i) then ["KF.C05.langTagCase"] else [])
-    else []
+  let kf : List String := []
+  let feat := if wf then (if ls.any weightFeat then "w" else "") ++ (if ls.any tagFeat then "t" else "") else ""
   let ties := (ls.filter (fun i => (knownLang i).isSome)).length
   pure (verdictOf impl (showLang r) spec kf
-    s!"hlang:{if wf then "wf" else "nwf"}:{match r with | none => "outside" | some none => "none" | some (some _) => "some"}:known{if ties ≥ 3 then "3+" else toString ties}{if kf.isEmpty then "" else ":kf"}")
+    s!"hlang:{if wf then "wf" else "nwf"}:{match r with | none => "outside" | some none => "none" | some (some _) => "some"}:known{if ties ≥ 3 then "3+" else toString ties}{if feat.isEmpty then "" else ":x" ++ feat}")
 
 def handlers : List (String × (String → P Verdict)) :=
   [("C05.preq", parserReq), ("C05.pres", parserRes), ("C05.req", procReq), ("C05.res", procRes),
